@@ -281,3 +281,34 @@ func VerifModelToUpper(s string) string {
 	}
 	return out
 }
+
+// VerifModelPathExt models path/filepath.Ext on Unix: the suffix beginning at the final dot of the final element.
+func VerifModelPathExt(p string) string {
+	for i := len(p) - 1; i >= 0 && p[i] != '/'; i-- {
+		if p[i] == '.' {
+			return p[i:]
+		}
+	}
+	return ""
+}
+
+// VerifModelPathBase models path/filepath.Base on Unix.
+func VerifModelPathBase(p string) string {
+	if p == "" {
+		return "."
+	}
+	for len(p) > 0 && p[len(p)-1] == '/' {
+		p = p[:len(p)-1]
+	}
+	i := len(p) - 1
+	for i >= 0 && p[i] != '/' {
+		i--
+	}
+	if i >= 0 {
+		p = p[i+1:]
+	}
+	if p == "" {
+		return "/"
+	}
+	return p
+}
